@@ -51,6 +51,15 @@ def lattice_close(a, b, cell, tol):
     return bool(np.abs((d - r).dot(c)).max() <= tol), bool(np.abs(r).max() > 0)
 
 
+def _near_mod_lattice(a, b, cell, tol):
+    """a is within tol (max-norm) of SOME lattice image of b"""
+    import numpy as np
+    c = np.array(cell, dtype=float)
+    d = (np.array(a, dtype=float) - np.array(b, dtype=float)).dot(np.linalg.inv(c))
+    d -= np.round(d)
+    return bool(np.abs(d.dot(c)).max() <= tol)
+
+
 def removal_sets(used_idx, shared, replace_all, r_empty):
     """per replaced match: the atoms that occur only in the search pattern (the atoms the match removes)"""
     keepj = set() if (replace_all or r_empty) else set(shared.values())
@@ -162,6 +171,19 @@ def oracle_replace(inp, out):
     only_r = Counter(e for i, e in enumerate(rel) if (n_sh == 0 or i not in shared))
     if Counter(rres[i] for i in inserted) != Counter({e: c * k for e, c in only_r.items() if c * k}):
         return "the inserted atoms are not M copies of the atoms that occur only in the replacement", None
+    # replace-all mode removes and re-inserts the atoms common to both patterns: they must come back where they were
+    # (same element, same place up to the lattice and the search tolerance)
+    if inp["replace_all"] and rel and shared and sj.get("cell"):
+        cell = [[float(Fraction(v)) for v in row] for row in sj["cell"]]
+        tol = 4 * float(inp.get("atol", 0.05)) + 1e-6
+        for u in used:
+            for kr, kp in shared.items():
+                old = sj["atoms"][u[kp]]
+                target = [float(Fraction(v)) for v in old["pos"]]
+                if not any(rres[i] == rel[kr] and _near_mod_lattice([float(Fraction(v)) for v in res["atoms"][i]["pos"]], target, cell, tol)
+                           for i in inserted):
+                    return ("an atom common to both patterns did not stay where it was (replace-all re-inserted it elsewhere)",
+                            {"match": list(u), "replacement_atom": kr, "expected_at": target})
     return None
 
 
